@@ -34,12 +34,13 @@ OUT_JSON = os.path.join(ROOT, '.work', 'effects.json')
 DOCUMENTED_MUTATORS = [
     'Angle.set', 'Angle.set_radians', 'Angle.set_ra', 'Angle.set_tolerance', 'Angle.to_positive',
     'Epoch.set', 'Interpolation.set', 'Interpolation.set_tolerance', 'CurveFitting.set',
-    'Earth.set',
+    'Earth.set', 'Minor.set',
 ]
 
 S = 'S'          # scalar (number, bool, str, None)
 UNK = '?'        # unknown
 LST = 'L'        # builtin container with unknown element types
+OBJ = 'O'        # scalar or instance of a library class (element of an undocumented sequence)
 EXT = 'X'        # object of an external pure library (datetime, ...)
 FUN = 'F'        # a callable value
 
@@ -128,6 +129,7 @@ class Fn(object):
         self.id = None
         self.vararg_elem = TU
         self.infer = set()
+        self.nva = 0              # number of model parameters that stand for *args
         self.private = name.startswith('_') and not (name.startswith('__') and name.endswith('__'))
 
 
@@ -148,6 +150,11 @@ def parse_doc_types(doc):
     for m in re.finditer(r':type\s+(\w+)\s*:\s*(.*(?:\n\s{8,}\S.*)*)', doc):
         out[m.group(1)] = ' '.join(m.group(2).split())
     return out
+
+
+def mparams(f):
+    """Model-level parameter list: the fixed parameters, then nva slots for *args, then **kwargs."""
+    return f.params + ['*%d' % i for i in range(f.nva)] + ([f.kwarg] if f.kwarg else [])
 
 
 class World(object):
@@ -324,6 +331,9 @@ def elem_type(t):
         elif isinstance(x, tuple) and x[0] == 'T':
             for e in x[1]:
                 out |= set(e or TU)
+        elif x == LST:
+            out.add(OBJ)        # ASSUMPTION: sequences whose element type is not documented hold numbers
+                                # or library objects, not nested builtin containers
         else:
             out.add(UNK)
     return frozenset(out)
@@ -395,9 +405,17 @@ class Typer(object):
                 if d is not None and isinstance(d, ast.Constant):
                     t = t | TS
                 f.locals[p] = t
+            self.fn = f
             for n in walk_own(f.node):
                 if isinstance(n, ast.Name) and isinstance(n.ctx, (ast.Store, ast.Del)) and n.id not in f.locals:
                     f.locals[n.id] = frozenset()
+                # a docstring type contradicted by an isinstance test on the parameter: add the tested classes
+                if isinstance(n, ast.Call) and isinstance(n.func, ast.Name) and n.func.id == 'isinstance' \
+                        and len(n.args) == 2 and isinstance(n.args[0], ast.Name) and n.args[0].id in f.params:
+                    d = self.narrowed(n).get(ast.dump(n.args[0]), frozenset())
+                    d = frozenset(x for x in d if x != LST)
+                    if n.args[0].id not in f.infer and f.locals.get(n.args[0].id):
+                        f.locals[n.args[0].id] = f.locals[n.args[0].id] | d
         self.fixpoint()
         # list-documented parameters the library never passes anything to: unknown lists
         again = False
@@ -484,7 +502,7 @@ class Typer(object):
         for x in t:
             if isinstance(x, tuple) and x[0] == 'C':
                 out.append(x[1])
-            elif x in (UNK,):
+            elif x in (UNK, OBJ):
                 return sorted(self.w.classes)
         return sorted(set(out))
 
@@ -517,6 +535,8 @@ class Typer(object):
         if self.may_be_plain(tl) and self.may_be_plain(tr):
             pl = set(x for x in tl if not (isinstance(x, tuple) and x[0] == 'C'))
             pr = set(x for x in tr if not (isinstance(x, tuple) and x[0] == 'C'))
+            pl.discard(OBJ)
+            pr.discard(OBJ)
             if UNK in pl or UNK in pr or LST in pl or LST in pr:
                 out |= {S, LST}
             else:
@@ -1035,9 +1055,11 @@ class Tr(object):
         self.w, self.ty_, self.fn = world, typer, fn
         self.vars = {}
         self.names = []
-        for p in fn.allparams:
+        self.tmp_slots = []
+        self.tmp_ptr = 0
+        for p in mparams(fn):
             self.var(p)
-        self.nparams = len(fn.allparams)
+        self.nparams = len(mparams(fn))
         self.S = self.newtmp('S')       # never assigned: always holds a scalar
         self.out = []
         self.notes = []
@@ -1054,9 +1076,17 @@ class Tr(object):
         return self.vars[key]
 
     def newtmp(self, hint='t'):
+        """a temporary; slots are recycled when the Python statement that used them ends"""
+        if hint != 'S' and self.tmp_ptr < len(self.tmp_slots):
+            v = self.tmp_slots[self.tmp_ptr]
+            self.tmp_ptr += 1
+            return v
         k = '%s#%d' % (hint, len(self.names))
         self.vars[k] = len(self.names)
         self.names.append(k)
+        if hint != 'S':
+            self.tmp_slots.append(self.vars[k])
+            self.tmp_ptr += 1
         return self.vars[k]
 
     def cur(self):
@@ -1111,46 +1141,25 @@ class Tr(object):
 
     def bind_args(self, g, pos, kw, star=None, dstar=None, recv=None):
         """Argument variables for callee g.  pos: list of vars/None; kw: {name: var/None};
-        star: var of a *iterable actual; dstar: var of a **mapping actual; recv: receiver var."""
+        star: None | ('spread', [vars]) | ('iter', var) for a *actual; dstar: var of a **mapping actual;
+        recv: receiver var."""
         params = list(g.params)
+        slots = params + ['*%d' % i for i in range(g.nva)]
         vals = {}
         actual = ([recv] if recv is not None else []) + list(pos)
+        if star is not None and star[0] == 'spread':
+            actual = actual + list(star[1])
         i = 0
-        extra = []
         for a in actual:
-            if i < len(params):
-                vals[params[i]] = self.v(a)
-                i += 1
-            else:
-                extra.append(a)
-        stmts = []
-        if star is not None:
-            if g.vararg and i >= len(params) and not extra:
-                vals[g.vararg] = star
-            else:
-                for p in params[i:]:
-                    if p not in kw:
-                        t = self.newtmp('a')
-                        self.emit('load', t, star, 'e')
-                        vals[p] = t
-                i = len(params)
-                if g.vararg:
-                    tup = self.newtmp('va')
-                    self.emit('new', tup)
-                    for a in extra:
-                        if a is not None:
-                            self.emit('store', tup, 'e', a)
+            if i < len(slots):
+                vals[slots[i]] = self.v(a)
+            i += 1                       # positional actuals beyond the model's *args slots are dropped
+        if star is not None and star[0] == 'iter':
+            for p in slots[i:]:
+                if p not in kw:
                     t = self.newtmp('a')
-                    self.emit('load', t, star, 'e')
-                    self.emit('store', tup, 'e', t)
-                    vals[g.vararg] = tup
-        elif g.vararg:
-            tup = self.newtmp('va')
-            self.emit('new', tup)
-            for a in extra:
-                if a is not None:
-                    self.emit('store', tup, 'e', a)
-            vals[g.vararg] = tup
+                    self.emit('load', t, star[1], 'e')
+                    vals[p] = t
         rest_kw = {}
         for k, a in kw.items():
             if k in params:
@@ -1178,7 +1187,7 @@ class Tr(object):
                     self.emit('load', t, dstar, 'e')
                     vals[p] = t
         out = []
-        for p in g.allparams:
+        for p in mparams(g):
             if p in vals:
                 out.append(vals[p])
             else:
@@ -1247,8 +1256,19 @@ class Tr(object):
         if e is None or isinstance(e, ast.Constant):
             return None
         t = self.ty(e)
+        if self.is_vararg(e):
+            return self.va_tuple()
         if isinstance(e, ast.Name):
             return self.name(e.id, t)
+        if isinstance(e, ast.Subscript) and self.is_vararg(e.value):
+            if isinstance(e.slice, ast.Slice):
+                return self.va_tuple()
+            self.as_index(e.slice)
+            if is_scalar(t):
+                return None
+            if isinstance(e.slice, ast.Constant) and isinstance(e.slice.value, int) and e.slice.value >= 0:
+                return self.vars['*%d' % e.slice.value] if e.slice.value < self.fn.nva else None
+            return self.va_choice()
         if isinstance(e, ast.JoinedStr):
             for x in e.values:
                 if isinstance(x, ast.FormattedValue):
@@ -1409,6 +1429,28 @@ class Tr(object):
             raise Havoc('lambda')
         raise Havoc('expression %s' % type(e).__name__)
 
+    def is_vararg(self, e):
+        return isinstance(e, ast.Name) and self.fn.vararg is not None and e.id == self.fn.vararg \
+            and self.cur() is self.fn
+
+    def va_vars(self):
+        return [self.vars['*%d' % i] for i in range(self.fn.nva)]
+
+    def va_choice(self):
+        """some element of *args"""
+        vs = self.va_vars()
+        r = self.newtmp('va')
+        self.choice([[('alias', r, x)] for x in vs] + [[('scalar', r)]])
+        return r
+
+    def va_tuple(self):
+        """*args used as a value: materialise the tuple"""
+        r = self.newtmp('vat')
+        self.emit('new', r)
+        for x in self.va_vars():
+            self.emit('store', r, 'e', x)
+        return r
+
     def as_index(self, x):
         """evaluate an index expression; a library object used as index: __index__/__int__ ignored"""
         if x is not None:
@@ -1489,8 +1531,8 @@ class Tr(object):
             alts.append(calls)
         if plain_l and plain_r:
             # plain values: numbers (scalar result) or builtin sequences (a new sequence / in-place extend)
-            lists_l = any(x not in (S,) and not (isinstance(x, tuple) and x[0] == 'C') for x in tl)
-            lists_r = any(x not in (S,) and not (isinstance(x, tuple) and x[0] == 'C') for x in tr)
+            lists_l = any(x not in (S, OBJ) and not (isinstance(x, tuple) and x[0] == 'C') for x in tl)
+            lists_r = any(x not in (S, OBJ) and not (isinstance(x, tuple) and x[0] == 'C') for x in tr)
             alts.append([('scalar', r)])
             seq_possible = (lists_l and lists_r) if op == 'add' else ((lists_l or lists_r) and op == 'mul')
             if seq_possible and (vl is not None or vr is not None):
@@ -1524,10 +1566,14 @@ class Tr(object):
         pos, kw, star, dstar = [], {}, None, None
         for a in call.args:
             if isinstance(a, ast.Starred):
-                star = self.expr(a.value)
-                if star is None:
-                    star = self.newtmp('st')
-                    self.emit('new', star)
+                if self.is_vararg(a.value):
+                    star = ('spread', self.va_vars())
+                else:
+                    sv = self.expr(a.value)
+                    if sv is None:
+                        sv = self.newtmp('st')
+                        self.emit('new', sv)
+                    star = ('iter', sv)
             else:
                 pos.append(self.expr(a))
         for k in call.keywords:
@@ -1739,6 +1785,8 @@ class Tr(object):
         if n in ('isinstance', 'issubclass', 'callable', 'hasattr', 'id', 'type'):
             self.expr(args[0]) if args else None
             return None
+        if n == 'len' and len(args) == 1 and self.is_vararg(args[0]):
+            return None
         if n in EXC_NAMES:
             for a in args:
                 self.to_scalar(self.expr(a), self.ty(a), ['__str__'])
@@ -1923,6 +1971,15 @@ class Tr(object):
                         self.emit('load', t, vi, 'e')
                         self.assign_to(el, t, te)
             binders.append(b)
+        elif self.is_vararg(it):
+            te0 = self.fn.vararg_elem or TU
+
+            def b():
+                if is_scalar(te0):
+                    self.assign_to(target, None, TS)
+                else:
+                    self.assign_to(target, self.va_choice(), te0)
+            binders.append(b)
         else:
             vi = self.expr(it)
             ti = self.ty(it)
@@ -1961,10 +2018,12 @@ class Tr(object):
     loop_depth = 0
 
     def stmt(self, st):
+        mark = self.tmp_ptr
         try:
             self.stmt_(st)
         except Havoc as h:
             self.havoc(str(h))
+        self.tmp_ptr = mark
 
     def stmt_(self, st):
         if isinstance(st, ast.Expr):
@@ -1986,6 +2045,11 @@ class Tr(object):
                 for tg, (vx, tx) in zip(st.targets[0].elts, vals):
                     self.assign_to(tg, vx, tx)
                 return
+            if len(st.targets) == 1 and self.is_vararg(st.targets[0]):
+                if isinstance(st.value, ast.Subscript) and self.is_vararg(st.value.value) \
+                        and isinstance(st.value.slice, ast.Slice):
+                    return          # args = args[a:b]: the new *args is a sub-sequence of the old one
+                raise Havoc('assignment to *args')
             v = self.expr(st.value)
             tv = self.ty(st.value)
             for tg in st.targets:
@@ -2328,12 +2392,53 @@ def lean_stmt(st):
     raise AssertionError(k)
 
 
+def compute_nva(world, typer):
+    """How many model parameters stand for *args in each variadic function."""
+    for f in world.all:
+        if not f.vararg:
+            continue
+        k, nonconst = 0, False
+        for n in walk_own(f.node):
+            if isinstance(n, ast.Subscript) and isinstance(n.value, ast.Name) and n.value.id == f.vararg:
+                if isinstance(n.slice, ast.Constant) and isinstance(n.slice.value, int) and n.slice.value >= 0:
+                    k = max(k, n.slice.value + 1)
+                elif not isinstance(n.slice, ast.Slice):
+                    nonconst = True
+            if isinstance(n, (ast.For, ast.comprehension)) and isinstance(n.iter, ast.Name) and n.iter.id == f.vararg:
+                nonconst = True
+        f.nva = max(4, k, 8 if nonconst else 0)
+    for _ in range(4):
+        for f in world.all:
+            typer.fn = f
+            for n in walk_own(f.node):
+                if not isinstance(n, ast.Call):
+                    continue
+                r = typer.callee_fns(n)
+                if r[0] in ('fns', 'classcall'):
+                    gs, off = r[1], 0
+                elif r[0] in ('method', 'callobj', 'callback'):
+                    gs, off = r[1], 1
+                elif r[0] == 'ctor':
+                    init = world.classes[r[1]].get('__init__')
+                    gs, off = ([init] if init else []), 1
+                else:
+                    continue
+                npos = off + len([a for a in n.args if not isinstance(a, ast.Starred)])
+                for a in n.args:
+                    if isinstance(a, ast.Starred) and isinstance(a.value, ast.Name) and a.value.id == f.vararg:
+                        npos += f.nva
+                for g in gs:
+                    if g.vararg:
+                        g.nva = min(12, max(g.nva, npos - len(g.params)))
+
+
 def build():
     world = World()
     typer = Typer(world)
-    trs = {}
+    compute_nva(world, typer)
     for f in world.all:
         f.inlined_somewhere = False
+    for f in world.all:
         tr = Tr(world, typer, f)
         typer.narrow = []
         f.body = tr.run()
@@ -2365,50 +2470,84 @@ def build():
     return world, live, sums, rejected, nfields
 
 
+def lean_sum(s):
+    return '⟨[%s], %s, %s⟩' % (', '.join(str(i) for i in s['writes']), 'true' if s['keeps'] else 'false',
+                               lean_aval(s['ret']))
+
+
+CHECK_TEMPLATE = """import Pymeeus.Gen.Effects.Current
+set_option maxRecDepth 100000
+namespace Pymeeus.Effects.Current
+open Pymeeus.Effects
+/-- every function of module @M@ is accepted against its annotated summary (kernel evaluation) -/
+theorem checked_@M@ : funs_@M@.all (checkFun nfields sums) = true := by decide +kernel
+end Pymeeus.Effects.Current
+"""
+
+
 def emit_lean(world, live, sums, nfields, guards):
+    """-> {relative file name: text}.  One file per module (built in parallel), Current.lean with the
+    program, one Check_<module>.lean per module with the kernel-evaluated check, Checks.lean."""
     mods = []
     for f in live:
         if f.module not in mods:
             mods.append(f.module)
-    L = []
-    L.append('-- GENERATED by tools/py2effects.py from %s; do not edit.' % os.path.join(REPO, 'pymeeus'))
-    L.append('import Pymeeus.Spec.Effects')
-    L.append('import Pymeeus.Spec.Guards')
-    L.append('set_option maxRecDepth 100000')
-    L.append('namespace Pymeeus.Effects.Current')
-    L.append('open Pymeeus.Effects')
-    L.append('')
+    files = {}
+    hdr = '-- GENERATED by tools/py2effects.py from the pymeeus source; do not edit.\n'
+    for m in mods:
+        L = [hdr + 'import Pymeeus.Spec.Effects', 'set_option maxRecDepth 100000',
+             'namespace Pymeeus.Effects.Current', 'open Pymeeus.Effects', '']
+        for f in live:
+            if f.module != m:
+                continue
+            L.append('/-- %s  (%s) -/' % (f.qual, ' '.join('%d=%s' % (i, n) for i, n in enumerate(f.varnames[:f.nparams + 1]))))
+            L.append('def f%d : FunDecl := ⟨"%s", %d, %d,\n  %s,\n  .%s, %s⟩' % (
+                f.id, f.qual, f.nparams, f.nvars, lean_body(f.body), f.kind, lean_sum(sums[f.id])))
+        L.append('')
+        L.append('def funs_%s : List FunDecl := [%s]' % (m, ', '.join('f%d' % f.id for f in live if f.module == m)))
+        L.append('end Pymeeus.Effects.Current')
+        files['M_%s.lean' % m] = '\n'.join(L) + '\n'
+    L = [hdr] + ['import Pymeeus.Gen.Effects.M_%s' % m for m in mods] + [
+        'import Pymeeus.Spec.Guards', 'set_option maxRecDepth 100000', 'namespace Pymeeus.Effects.Current',
+        'open Pymeeus.Effects', '']
     L.append('/-- attribute names: %s -/' % ', '.join('%d=%s' % (i, n) for n, i in sorted(world.fields.items(), key=lambda x: x[1])))
     L.append('def nfields : Nat := %d' % nfields)
-    L.append('')
-    for f in live:
-        s = sums[f.id]
-        L.append('/-- %s  (vars: %s) -/' % (f.qual, ' '.join('%d=%s' % (i, n) for i, n in enumerate(f.varnames[:f.nparams + 1]))))
-        L.append('def f%d : FunDecl := ⟨"%s", %d, %d,\n  %s,\n  .%s, ⟨[%s], %s, %s⟩⟩' % (
-            f.id, f.qual, f.nparams, f.nvars, lean_body(f.body), f.kind,
-            ', '.join(str(i) for i in s['writes']), 'true' if s['keeps'] else 'false', lean_aval(s['ret'])))
-    L.append('')
-    for m in mods:
-        L.append('def funs_%s : List FunDecl := [%s]' % (m, ', '.join('f%d' % f.id for f in live if f.module == m)))
-    L.append('')
+    L.append('/-- module-level objects: 0=(unknown object) %s -/' % ' '.join('%d=%s.%s' % (i + 1, g[0], g[1]) for i, g in enumerate(world.globals)))
+    L.append('def nglobals : Nat := %d' % (len(world.globals) + 1))
     L.append('def funs : List FunDecl := ' + ' ++ '.join('funs_%s' % m for m in mods))
     L.append('def program : Program := ⟨nfields, funs⟩')
-    L.append('def sums : List Summary := [%s]' % ', '.join(
-        '⟨[%s], %s, %s⟩' % (', '.join(str(i) for i in sums[f.id]['writes']), 'true' if sums[f.id]['keeps'] else 'false',
-                            lean_aval(sums[f.id]['ret'])) for f in live))
+    L.append('def sums : List Summary := [%s]' % ', '.join(lean_sum(sums[f.id]) for f in live))
     L.append('')
     L.append(guards)
     L.append('end Pymeeus.Effects.Current')
-    return '\n'.join(L) + '\n', mods
+    files['Current.lean'] = '\n'.join(L) + '\n'
+    for m in mods:
+        files['Check_%s.lean' % m] = hdr + CHECK_TEMPLATE.replace('@M@', m)
+    L = [hdr] + ['import Pymeeus.Gen.Effects.Check_%s' % m for m in mods] + [
+        'namespace Pymeeus.Effects.Current', 'open Pymeeus.Effects',
+        'theorem sums_eq : program.sums = sums := by decide +kernel',
+        'theorem all_checked : funs.all (checkFun nfields sums) = true := by',
+        '  simp only [funs, List.all_append, Bool.and_eq_true]',
+        '  exact ' + ''.join('⟨' for _ in mods[:-1]) + 'checked_%s' % mods[0] +
+        ''.join(', checked_%s⟩' % m for m in mods[1:]),
+        'end Pymeeus.Effects.Current']
+    files['Checks.lean'] = '\n'.join(L) + '\n'
+    return files, mods
 
 
 def main():
     world, live, sums, rejected, nfields = build()
     guards_lean, guards_json = extract_guards(world, live)
-    text, mods = emit_lean(world, live, sums, nfields, guards_lean)
-    os.makedirs(os.path.dirname(OUT_LEAN), exist_ok=True)
-    if not os.path.exists(OUT_LEAN) or open(OUT_LEAN).read() != text:
-        open(OUT_LEAN, 'w').write(text)
+    files, mods = emit_lean(world, live, sums, nfields, guards_lean)
+    d = os.path.dirname(OUT_LEAN)
+    os.makedirs(d, exist_ok=True)
+    for fn in os.listdir(d):
+        if fn.endswith('.lean') and fn not in files:
+            os.remove(os.path.join(d, fn))
+    for fn, text in files.items():
+        p = os.path.join(d, fn)
+        if not os.path.exists(p) or open(p).read() != text:     # unchanged files keep lake's cache valid
+            open(p, 'w').write(text)
     info = {
         'repo': REPO, 'modules': mods, 'nfields': nfields,
         'fields': world.fields,
